@@ -36,6 +36,26 @@ initializer that is a graph output has no value_info entry).  Here, after a grap
     graph input is listed without a type (a verbatim forwarded copy among the outputs is kept
     identical).
 
+**Storage strings that are not in a normal form** (``location_spelling``).  The shared generator
+spells the ``location`` of an external tensor in exactly one way: a plain, already normalised relative
+path (``weights.bin``, ``data/w.bin``).  A location is an opaque string of the proto - a relative path
+the *producer* chose to spell - and the statement promises every storage field back unaltered.  With
+this feature the location of an external tensor (initializer, TENSOR/TENSORS attribute value,
+stand-alone tensor) is re-spelled by composing rewrites none of which changes the file it names or
+makes it absolute / leave the model directory:
+
+  * ``dot_prefix``: leading ``./`` (possibly twice);
+  * ``double_sep``: a doubled separator between two segments;
+  * ``dot_segment``: an inner ``/./`` segment;
+  * ``updir_inner``: an inner ``sub/../`` detour (never leading, so the path stays inside);
+  * ``case``: upper / mixed case letters in a segment or the extension (``Weights.BIN``);
+  * ``blank``: a blank inside a segment, or a leading / trailing blank of the whole string;
+  * ``non_ascii``: a non-ASCII segment in composed or decomposed Unicode form (the two are different
+    strings);
+  * ``backslash``: a backslash inside a segment (an ordinary file-name character of a POSIX path);
+  * ``percent``: a percent-escape-looking segment (``w%20x.bin``: not an escape, just characters);
+  * ``deep``: several directory levels.
+
 Nothing here imports ``onnx_ir``.
 """
 
@@ -51,12 +71,25 @@ from vfpy import gen_proto as gp
 #: features of this module (toggled like the shared ones, with draws made AFTER the shared ones)
 EXTRA_FEATURES: tuple[str, ...] = (
     "alias_names", "overlap_untyped_output", "overlap_output_value_info", "overlap_untyped_init_input",
+    "location_spelling",
 )
 EXTRA_MIN_IR = {"alias_names": 8, "overlap_untyped_init_input": 4}
 #: first IR version in which FunctionProto has its own value_info: the structured spellings are
 #: only generated from here on (see module doc)
 _STRUCTURED_MIN_IR = 10
 _ALIASABLE_PREFIXES = frozenset({"v", "in", "w", "ghost"})
+
+#: rewrites of a relative location (see module doc); each keeps the path relative, inside the model
+#: directory and naming the same file *as far as path semantics go* - as a string it is different
+LOCATION_STYLES: tuple[str, ...] = (
+    "dot_prefix", "double_sep", "dot_segment", "updir_inner", "case", "blank", "non_ascii", "backslash",
+    "percent", "deep",
+)
+#: segment-level rewrites first, structural ones (which add '.', '..' and empty segments) last
+_APPLY_ORDER = ("deep", "case", "blank", "non_ascii", "backslash", "percent", "updir_inner", "dot_segment",
+                "double_sep", "dot_prefix")
+_SEGMENTS = ("data", "shards", "w", "ext", "part-0", "v1.2")
+_NON_ASCII = ("caf\u00e9", "cafe\u0301", "\u65e5\u672c", "\u00c5", "A\u030a")  # composed / decomposed pairs
 
 
 class ProtoGenC02(gp.ProtoGen):
@@ -115,6 +148,68 @@ class ProtoGenC02(gp.ProtoGen):
         values = list(dict.fromkeys(list(f.input) + [o for n in f.node for o in n.output if o]))
         self._fn_values.append((domain, name, overload, values))
         return info
+
+    # ---- storage strings that are not in a normal form -------------------------------------------
+    def _tensor_into(self, t: onnx.TensorProto, name: str | None, *, allow_external: bool = True) -> None:
+        super()._tensor_into(t, name, allow_external=allow_external)
+        if t.data_location != onnx.TensorProto.EXTERNAL:
+            return
+        if not self.on("location_spelling", 0.65):
+            return
+        for e in t.external_data:
+            if e.key == "location":
+                e.value = self._respell_location(e.value)
+
+    def _respell_location(self, location: str) -> str:
+        rng = self.rng
+        parts = [p for p in location.split("/") if p]
+        styles = rng.sample(LOCATION_STYLES, rng.choice((1, 1, 1, 2, 2, 3)))
+        lead = ""
+        for style in _APPLY_ORDER:  # fixed application order; the sample decides which apply
+            if style not in styles:
+                continue
+            self.used.add(f"location_spelling:{style}")
+            if style == "deep":
+                parts = [rng.choice(_SEGMENTS) for _ in range(rng.randint(1, 3))] + parts
+            elif style == "case":
+                i = rng.randrange(len(parts))
+                parts[i] = rng.choice((parts[i].upper(), parts[i].capitalize(), parts[i].swapcase() or parts[i]))
+                if parts[i] == parts[i].lower():
+                    parts[i] = "W" + parts[i]
+            elif style == "blank":
+                r = rng.random()
+                if r < 0.4:
+                    i = rng.randrange(len(parts))
+                    parts[i] = parts[i][:1] + " " + parts[i][1:]
+                elif r < 0.7:
+                    parts[-1] = parts[-1] + " "
+                else:
+                    parts[0] = " " + parts[0]
+            elif style == "non_ascii":
+                parts.insert(rng.randrange(len(parts)), rng.choice(_NON_ASCII))
+            elif style == "backslash":
+                i = rng.randrange(len(parts))
+                parts[i] = parts[i][:1] + "\\" + parts[i][1:]
+            elif style == "percent":
+                i = rng.randrange(len(parts))
+                parts[i] = parts[i][:1] + rng.choice(("%20", "%2F", "%")) + parts[i][1:]
+            elif style == "updir_inner":
+                # a detour through a sub directory and back: never leading, so the path stays inside
+                if len(parts) == 1:
+                    parts = [rng.choice(_SEGMENTS)] + parts
+                i = rng.randint(1, len(parts) - 1)  # before the file name, after the first directory
+                parts[i:i] = [rng.choice(_SEGMENTS), ".."]
+            elif style == "dot_segment":
+                if len(parts) == 1:
+                    parts = [rng.choice(_SEGMENTS)] + parts
+                parts.insert(rng.randint(1, len(parts) - 1), ".")
+            elif style == "double_sep":
+                if len(parts) == 1:
+                    parts = [rng.choice(_SEGMENTS)] + parts
+                parts.insert(rng.randint(1, len(parts) - 1), "")
+            elif style == "dot_prefix":
+                lead = rng.choice(("./", "./", "././", ".//"))
+        return lead + "/".join(parts)
 
     # ---- one value, several entries ----------------------------------------------------------------
     def _graph_into(self, g: onnx.GraphProto, *, depth: int, outer: list[str]) -> None:
